@@ -247,6 +247,9 @@ impl<'a> GeneratorState<'a> {
             Operation::Div(_) => { return Err(self.compiler_state.syntax_error("Operation not possible. 6502 doesn't implement a divider.", pos)) },
             _ => { return Err(self.compiler_state.compiler_error("Arithmetics is partially implemented", pos)); },
         };
+        // An operation that is not emitted (| 0, + 0, & 0xff) on a value that was already in the
+        // accumulator leaves the flags as they were (those of a callee, after a call)
+        let mut flags_of_acc = !matches!(left, ExprType::A(_));
         match right2 {
             ExprType::Immediate(v) => {
                 if !high_byte && operation == ADC && *v & 0xff == 0 {
@@ -254,6 +257,7 @@ impl<'a> GeneratorState<'a> {
                 } else if high_byte || operation != AND || *v & 0xff != 0xff {
                     if *v != 0 || operation == AND || high_byte { 
                         self.asm(operation, right2, pos, high_byte)?; 
+                        flags_of_acc = true;
                     }
                 }
             },
@@ -280,6 +284,9 @@ impl<'a> GeneratorState<'a> {
             },
             _ => { return Err(self.compiler_state.compiler_error("Arithmetics is partially implemented", pos)); },
         };
+        if !matches!(right2, ExprType::Immediate(_)) {
+            flags_of_acc = true;
+        }
         if acc_in_use {
             self.asm(STA, &ExprType::Tmp(false), pos, high_byte)?;
             self.sasm(PLA)?;
@@ -292,7 +299,9 @@ impl<'a> GeneratorState<'a> {
             Ok(ExprType::Tmp(signed))
         } else {
             self.acc_in_use = true;
-            self.flags = FlagsState::A;
+            if flags_of_acc {
+                self.flags = FlagsState::A;
+            }
             Ok(ExprType::A(signed))
         }
     }
